@@ -316,6 +316,18 @@ func (dm *DMap) putOnCluster(e *env) error {
 	}
 
 	nt := dm.prepareEntry(e)
+	if e.putConfig.OnlyUpdateTTL {
+		// The backups receive a whole entry: carry the stored value along with
+		// the new expiry instead of shipping an empty one.
+		current, err := f.storage.Get(e.hkey)
+		if errors.Is(err, storage.ErrKeyNotFound) {
+			err = ErrKeyNotFound
+		}
+		if err != nil {
+			return err
+		}
+		nt.SetValue(current.Value())
+	}
 	if dm.s.config.ReplicaCount > config.MinimumReplicaCount {
 		switch dm.s.config.ReplicationMode {
 		case config.AsyncReplicationMode:
@@ -368,12 +380,20 @@ func (dm *DMap) put(e *env) error {
 	}
 
 	// Redirect to the partition owner.
-	cmd, err := dm.writePutCommand(e)
-	if err != nil {
-		return err
+	var cmd *redis.StatusCmd
+	if e.putConfig.OnlyUpdateTTL {
+		// Expire: forward the operation itself. Sent as a DM.PUT it would replace
+		// the value with an empty one and carry no expiry at all.
+		cmd = protocol.NewPExpire(e.dmap, e.key, e.timeout).Command(dm.s.ctx)
+	} else {
+		var err error
+		cmd, err = dm.writePutCommand(e)
+		if err != nil {
+			return err
+		}
 	}
 	rc := dm.s.client.Get(member.String())
-	err = rc.Process(e.ctx, cmd)
+	err := rc.Process(e.ctx, cmd)
 	if err != nil {
 		return protocol.ConvertError(err)
 	}
